@@ -5,6 +5,7 @@
    u32 masks are [N] below 2^32.  Statements only; proofs are in Proofs/DisplayProofs.v. *)
 From Coq Require Import List NArith Bool Sorted.
 From V Require Import Spec.TwoLevelCost Checkers.Check Proofs.CheckSoundCube.   (* the extracted checkers and their soundness proofs, pinned at the end of this file *)
+From V Require Proofs.ExprsTie4.   (* the bodies of sop.rs / esop.rs / soes.rs (and the remaining functions of cube.rs / ecube.rs), regenerated from the Rust source, equal the model's *)
 From V Require Import Base.Res Model.Kernels Model.TwoLevel Spec.Grammar Proofs.DisplayProofs.
 Import ListNotations.
 Open Scope N_scope.
